@@ -2,6 +2,8 @@
 structure, H3 operator table."""
 from __future__ import annotations
 
+import re
+
 from ..engine import rule
 from ..cxx_ir import CALL_KINDS, CTOR_KINDS
 from ..cfg import const_eval
@@ -233,6 +235,26 @@ def h1(ctx):
         ctx.check('HashValueImpl/' + t, ok,
                   '`%s` feeds the hash and is strictly compared by EqualTo' % t, why, c.loc,
                   {'strict': sorted(strict), 'weak': sorted(weak)})
+
+
+@rule('H4', floor=8, title='Python objects enter the hash through their Python hash, never through their address')
+def h4(ctx):
+    prog = ctx.cxx()
+    hv = prog.one('PyTreeSpec::HashValueImpl')
+    n = 0
+    for c in calls_in(hv.body, {'HashCombine'}):
+        t = prog.target(hv, c)
+        args = c.call_args()
+        n += 1
+        ty = ','.join(t.targs) if t is not None else (args[1].type or '')
+        is_pyobj = bool(re.search(r'pybind11::(handle|object|list|tuple|dict|type|function|str)|py::(handle|object)', ty))
+        what = args[1].text(4) if len(args) > 1 else '?'
+        ctx.check('HashValueImpl/HashCombine#%d' % (n - 1), not is_pyobj,
+                  'HashCombine<%s>(%s): a value hash' % (ty, what),
+                  'HashCombine<%s>(%s) hashes the *address* of a Python object, while == compares '
+                  'that object by value (Python ==): two equal treespecs holding equal but distinct '
+                  'objects (e.g. a deque maxlen above the small-int cache) hash differently'
+                  % (ty, what), c.loc)
 
 
 @rule('H2', floor=7, title='== compares the structure and only the structure')
